@@ -2,7 +2,7 @@
 import ast
 
 from ..model import AnalysisError, dotted, unparse
-from ..util import FACTS, FACTS_I, U, enum_paths, walk_no_nested, is_yield_call
+from ..util import sym_env, FACTS, FACTS_I, U, enum_paths, walk_no_nested, is_yield_call
 from ..paths import call_attr, call_name
 
 R = 'scales/resurrector.py'
@@ -20,6 +20,7 @@ def check(ctx):
   ctx.rule('C09.R3', 'retry loop: sleep(wait), create, Open() observed with get(); success = subscribe + install + clear down mark + return; failure = close, grow the wait and cap it with min(wait, max); GreenletExit ends the loop')
   ctx.rule('C09.R4', 'Close kills the retry greenlet without blocking, clears the down mark, unsubscribes and closes the current sink')
   ctx.rule('C09.R5', 'fault chain: every sink a pool creates has the pool fault propagator subscribed; every sink the resurrector installs has _OnSinkFaulted subscribed; state maps the down mark to Closed; notifications honour Unsubscribe up to delivery')
+  ctx.rule('C03.R2', 'shared with C03: the balancer down-queue scan marks a member up again when its channel reports open, without dropping other still-down members from the queue')
   ctx.rule('C09.R6', 'open results are observed: the value of Open() is consumed by get(), an exception test, a continuation, or handed to the caller; a bare wait() drops the error')
   ctx.decline('liveness over virtual time and spacing of attempts are not decided')
   r1(ctx)
@@ -28,6 +29,8 @@ def check(ctx):
   r4(ctx)
   r5(ctx)
   r6(ctx)
+  from . import c03
+  c03.r2(ctx)
 
 
 def r1(ctx):
@@ -123,17 +126,19 @@ def r3(ctx):
     else:
       h = [e for e in ev if e.kind == 'handler']
       closes = [e for e in ev if e.kind == 'call' and call_attr(e.node) == 'Close']
-      grow = idx(lambda e: e.kind == 'stmt' and isinstance(e.node, ast.AugAssign) and U(e.node.target) == 'wait_interval' and isinstance(e.node.op, (ast.Pow, ast.Mult, ast.Add))
-                 and 'backoff' in U(e.node.value))
-      cap = idx(lambda e: e.kind == 'stmt' and isinstance(e.node, ast.Assign) and U(e.node.targets[0]) == 'wait_interval' and
-                U(e.node.value).replace(' ', '') in ('min(wait_interval,self._max_wait_interval)', 'min(self._max_wait_interval,wait_interval)'))
+      # value of the wait at the end of the iteration, resolved through the assignments of the failing iteration
+      env = sym_env(ev)
+      final = U(env.get('wait_interval', ast.Name(id='wait_interval', ctx=ast.Load()))).replace(' ', '')
+      grown = ['wait_interval**self._backoff_exponent', 'wait_interval*self._backoff_exponent']
+      okcap = any(final in ('min(%s,self._max_wait_interval)' % g, 'min(self._max_wait_interval,%s)' % g) for g in grown)
       inst = [e for e in ev if e.kind == 'stmt' and isinstance(e.node, ast.Assign) and U(e.node.targets[0]) in ('self.next_sink', 'self._down_on')]
-      ok = okhead and bool(h) and len(closes) == 1 and len(grow) == 1 and len(cap) == 1 and grow[0] < cap[0] and not inst and ex[0] in ('fall', 'continue')
+      ok = okhead and bool(h) and len(closes) == 1 and okcap and not inst and ex[0] in ('fall', 'continue')
+      seen.setdefault('final', []).append(final)
       seen['failure'].append(ok)
   ctx.ob('C09.R3', f, 'success: sleep, create, Open().get(), subscribe the new sink, install it, clear the down mark, return', bool(seen['success']) and all(seen['success']),
          'success paths: %s' % seen['success'], why)
   ctx.ob('C09.R3', f, 'failure: close the attempt, grow the wait, cap it with min(wait, max), loop again', bool(seen['failure']) and all(seen['failure']),
-         'failure paths: %s' % seen['failure'], why + '; "max" instead of "min" (or a missing cap) makes the delay jump to / beyond the maximum and traffic resumes late')
+         'failure paths: %s, next wait = %s' % (seen['failure'], seen.get('final')), why + '; "max" instead of "min" (or a missing cap) makes the delay jump to / beyond the maximum and traffic resumes late')
   ctx.ob('C09.R3', f, 'GreenletExit ends the retry loop', bool(seen['exit']) and all(seen['exit']), 'exit paths: %s' % seen['exit'], 'after Close no further attempts are made')
   init = prog.func(R, 'ResurrectorSink.__init__')
   t = U(init.node).replace(' ', '')
